@@ -169,7 +169,7 @@ def _struct(obj, depth=0):
     if isinstance(obj, tuple):
         return ("tuple", [_struct(e, depth + 1) for e in obj]) if depth < 8 else ("tuple", len(obj))
     if isinstance(obj, dict):
-        return ("dict", [(repr(k), _struct(v, depth + 1)) for k, v in obj.items()])
+        return ("dict", [(str(k), _struct(v, depth + 1)) for k, v in obj.items()])
     if isinstance(obj, (int, float, complex, bool, str, bytes, type(None), np.generic)):
         return ("val", type(obj).__name__, repr(obj))
     return ("obj", id(obj))
@@ -199,7 +199,7 @@ def _struct_diff(a, b, path):
 
 
 def _short(x, n=160):
-    s = repr(x)
+    s = x if isinstance(x, str) else repr(x)
     return s if len(s) <= n else s[:n] + "..."
 
 
@@ -473,8 +473,8 @@ def _execute(ent: Entry, pattern: str, seed: int, sub: str = "same", protect: bo
     try:
         if use_alarm:
             try:
-                old = signal.signal(signal.SIGALRM, _alarm)
-                signal.setitimer(signal.ITIMER_REAL, limit)
+                old = signal.signal(signal.SIGVTALRM, _alarm)
+                signal.setitimer(signal.ITIMER_VIRTUAL, limit)
             except ValueError:
                 use_alarm = False
         with warnings.catch_warnings():
@@ -488,9 +488,9 @@ def _execute(ent: Entry, pattern: str, seed: int, sub: str = "same", protect: bo
         tb_txt = _lib_frame(e.__traceback__)
     finally:
         if use_alarm:
-            signal.setitimer(signal.ITIMER_REAL, 0)
+            signal.setitimer(signal.ITIMER_VIRTUAL, 0)
             if old is not None:
-                signal.signal(signal.SIGALRM, old)
+                signal.signal(signal.SIGVTALRM, old)
         _unprotect(st)
     res["cb_calls"] = st.cb_calls
     if exc is not None:
@@ -512,7 +512,7 @@ def _execute(ent: Entry, pattern: str, seed: int, sub: str = "same", protect: bo
     for p, a, s in st.cb_records:
         d = _array_diff(a, s)
         if d:
-            k = (p, id(a))
+            k = p  # one report per callback and case
             if k in seen_cb:
                 continue
             seen_cb.add(k)
@@ -567,6 +567,13 @@ def _run_case(ent: Entry, pattern: str, seed: int, limit: float = 60.0):
                 vs.append({"argname": "read-only-input", "object": "a write-protected caller array",
                            "kind": "readonly-exception", "index": None, "before": None, "after": None,
                            "readonly_error": r["readonly_exc"]})
+        uniq, seen_obj = [], set()
+        for v in vs:
+            if v["object"] in seen_obj:
+                continue
+            seen_obj.add(v["object"])
+            uniq.append(v)
+        vs = uniq
         for v in vs:
             v["sub"] = sub
             if r["aliased"]:
@@ -581,7 +588,10 @@ def _snippet(ent: Entry, pattern: str, seed: int) -> str:
 
 
 def _what(ent, pattern, v) -> str:
-    s = f"{ent.name} ({pattern}): {v['object']} changed"
+    if v.get("kind") == "readonly-exception":
+        s = f"{ent.name} ({pattern}): in-place write attempted on {v['object']}"
+    else:
+        s = f"{ent.name} ({pattern}): {v['object']} changed"
     if v.get("index") is not None:
         s += f" at index {v['index']}: {v.get('before')!r} -> {v.get('after')!r}"
     elif v.get("before") is not None:
@@ -592,6 +602,11 @@ def _what(ent, pattern, v) -> str:
 
 
 def replay(entry_name: str, pattern: str, seed: int) -> None:
+    import sys
+
+    repo = os.environ.get("GRID_REPO")
+    if repo and "grid" not in sys.modules:  # replay against a worktree, as ./check does
+        sys.path.insert(0, os.path.join(repo, "src"))
     _load_entries()
     ent = next((e for e in _ENTRIES if e.id == entry_name), None)
     if ent is None:
@@ -636,6 +651,8 @@ def public_api():
                     if not km.startswith("grid."):
                         continue
                     raw = vars(klass)[attr]
+                    if getattr(raw, "__isabstractmethod__", False):
+                        continue  # abstract declaration: covered through every concrete subclass
                     q = f"{km[5:]}.{klass.__name__}.{attr}"
                     if isinstance(raw, property):
                         if raw.fset is not None:
@@ -692,13 +709,14 @@ def _priority(ent: Entry, flagged: set, closure) -> int:
 def run(ctx, budget: str, flagged: set) -> None:
     _load_entries()
     t0 = time.time()
+    c0 = time.process_time()  # budgets in CPU seconds: the machine may be loaded
     flagged = set(flagged or ())
     closure = _module_deps()
     prio = {e.id: _priority(e, flagged, closure) for e in _ENTRIES}
     order = sorted(range(len(_ENTRIES)), key=lambda i: (prio[_ENTRIES[i].id], i))
     if budget == "quick":
         plan = [(0, 0)]
-        wall, limit = 55.0, 25.0
+        wall, limit = 55.0, 6.0
     elif budget == "thorough":
         plan = [(0, 0), (0, 1), (1, 0), (1, 1)]
         wall, limit = 900.0, 60.0
@@ -708,22 +726,26 @@ def run(ctx, budget: str, flagged: set) -> None:
     reg = {
         "budget": budget, "entries": len(_ENTRIES), "entries_by_module": {},
         "cases": {p: 0 for p in PATTERNS}, "not_applicable": {p: 0 for p in PATTERNS},
-        "raised": {}, "skipped": {}, "build_errors": {}, "trivial_entries": [],
+        "raised": {}, "timeouts": [], "skipped": {}, "build_errors": {}, "trivial_entries": [],
         "flagged_first": sorted(e.id for e in _ENTRIES if prio[e.id] == 0),
         "entries_run": 0,
     }
     for e in _ENTRIES:
         reg["entries_by_module"][e.module] = reg["entries_by_module"].get(e.module, 0) + 1
     base = (ctx.seed % 1000) * 1000
+    failing = {}
     for i in order:
         ent = _ENTRIES[i]
         if ent.slow and budget == "quick" and prio[ent.id] > 1:
             reg["skipped"][ent.id] = "slow: runs in thorough/large budgets (or when its module is flagged)"
             continue
-        if time.time() - t0 > wall:
+        if time.process_time() - c0 > wall:
             reg["skipped"][ent.id] = f"time budget of the {budget} run exhausted"
             continue
         ran = False
+        if failing.get(ent.name, 0) >= 3:
+            reg["skipped"][ent.id] = "this entry point already has 3 violating cases in this run"
+            continue
         for level, rep in plan:
             seed = level * LEVEL_BASE + base + rep
             for pattern in PATTERNS:
@@ -746,6 +768,10 @@ def run(ctx, budget: str, flagged: set) -> None:
                     reg["trivial_entries"].append(ent.id)
                 if info["exc"]:
                     reg["raised"][f"{ent.id}:{pattern}:{seed}"] = info["exc"][:300]
+                    if info["exc"].startswith("_Timeout"):
+                        reg["timeouts"].append(f"{ent.id}:{pattern}:{seed}")
+                if violations:
+                    failing[ent.name] = failing.get(ent.name, 0) + 1
                 for v in violations[:3]:
                     ctx.fail(
                         "oracle",
@@ -773,8 +799,9 @@ def run(ctx, budget: str, flagged: set) -> None:
     reg["n_raised"] = len(reg["raised"])
     reg["raised"] = dict(list(reg["raised"].items())[:60])
     reg["wall_s"] = round(time.time() - t0, 1)
+    reg["cpu_s"] = round(time.process_time() - c0, 1)
     ctx.extra["registry"] = reg
-    ctx.extra[f"registry_{budget}"] = {k: reg[k] for k in ("entries_run", "cases", "wall_s", "n_raised")}
+    ctx.extra[f"registry_{budget}"] = {k: reg[k] for k in ("entries_run", "cases", "wall_s", "cpu_s", "n_raised")}
     if reg["build_errors"]:
         ctx.info(f"C20 registry: {len(reg['build_errors'])} cases could not be built/run: "
                  + "; ".join(f"{k}: {v}" for k, v in list(reg["build_errors"].items())[:3]))
@@ -809,8 +836,9 @@ def _define_entries():
 
 # ---- helpers ---------------------------------------------------------------
 def _pts(rng, n, d=3, scale=1.0):
-    p = rng.uniform(-1.0, 1.0, (n, d)) * scale
-    return p[:, 0].copy() if d == 0 else p
+    if d == 0:
+        return rng.uniform(-1.0, 1.0, n) * scale
+    return rng.uniform(-1.0, 1.0, (n, d)) * scale
 
 
 def _w(rng, n):
@@ -1862,7 +1890,7 @@ def _entries_ode_poisson():
         kw = dict(rgrid=rgrid, degrees=[3 if lv < 2 else 5], center=center)
         probe = AtomGrid(copy.deepcopy(rgrid), degrees=[3 if lv < 2 else 5], center=center.copy())
         r = np.linalg.norm(probe.points - center, axis=1)
-        kw["func_vals"] = np.exp(-(r**2)) * (1.0 + 0.1 * rng.normal(size=r.size))
+        kw["func_vals"] = float(rng.uniform(0.8, 1.2)) * np.exp(-float(rng.uniform(0.8, 1.5)) * r**2)
         kw["pts"] = RO(center + _pts(rng, 4, scale=0.8))
         return kw, btf
 
@@ -1878,7 +1906,7 @@ def _entries_ode_poisson():
         atnums = np.array([1, 1])
         probe = MolGrid(atnums.copy(), copy.deepcopy(atgrids), BeckeWeights(), store=True)
         fv = np.exp(-np.sum((probe.points - atcoords[0]) ** 2, axis=1)) + np.exp(-np.sum((probe.points - atcoords[1]) ** 2, axis=1))
-        kw = dict(atnums=atnums, atgrids=atgrids, func_vals=fv * (1 + 0.05 * rng.normal(size=fv.size)),
+        kw = dict(atnums=atnums, atgrids=atgrids, func_vals=fv * float(rng.uniform(0.8, 1.2)),
                   pts=RO(_pts(rng, 4, scale=0.8)))
         return kw, btf
 
@@ -1887,9 +1915,9 @@ def _entries_ode_poisson():
             @entry("poisson.solve_poisson_bvp", f"{target}-{pform}", covers=["ode.solve_ode_bvp"])
             def _(rng, lv, target=target, pform=pform):
                 kw, btf = atom_case(rng, lv) if target == "atomgrid" else mol_case(rng, lv)
-                kw["ode_params"] = {"params-dict": {"tol": 1e-3, "max_nodes": 2000}, "params-empty": {}, "params-none": None}[pform]
+                kw["ode_params"] = {"params-dict": {"tol": 1e-3, "max_nodes": 5000}, "params-empty": {}, "params-none": None}[pform]
                 tf = InverseRTransform(btf)
-                incl = bool(rng.integers(0, 2))
+                incl = target == "atomgrid"
                 def call(func_vals, pts, ode_params, **g):
                     grid = (AtomGrid(g["rgrid"], degrees=g["degrees"], center=g["center"]) if target == "atomgrid"
                             else MolGrid(g["atnums"], g["atgrids"], BeckeWeights(), store=True))
@@ -1897,11 +1925,12 @@ def _entries_ode_poisson():
                     return pot(pts)
                 return call, kw
 
-            @entry("poisson.solve_poisson_ivp", f"{target}-{pform}", covers=["ode.solve_ode_ivp"])
+            @entry("poisson.solve_poisson_ivp", f"{target}-{pform}", covers=["ode.solve_ode_ivp"],
+                   slow=(target == "molgrid" and pform != "params-dict"))
             def _(rng, lv, target=target, pform=pform):
                 kw, btf = atom_case(rng, lv) if target == "atomgrid" else mol_case(rng, lv)
                 kw["ode_params"] = {"params-dict": {"rtol": 1e-4, "atol": 1e-4}, "params-empty": {}, "params-none": None}[pform]
-                kw["r_interval"] = (50.0, 1e-3) if rng.random() < 0.5 else [50.0, 1e-3]
+                kw["r_interval"] = (20.0, 1e-2) if rng.random() < 0.5 else [20.0, 1e-2]
                 tf = InverseRTransform(btf)
                 def call(func_vals, pts, ode_params, r_interval, **g):
                     grid = (AtomGrid(g["rgrid"], degrees=g["degrees"], center=g["center"]) if target == "atomgrid"
@@ -1933,21 +1962,298 @@ def _entries_ode_poisson():
                     kw["r_atcoords"] = np.array([[0.0, 0.0, -0.7], [0.0, 0.0, 0.7]])
                 if split2:
                     kw["alphas_basis"] = np.array([0.5, 1.0, 2.0, 4.0]) if rng.random() < 0.7 else [0.5, 1.0, 2.0]
-                kw["ode_params"] = {"tol": 1e-3, "max_nodes": 2000}
+                kw["ode_params"] = {"tol": 1e-3, "max_nodes": 5000}
                 kw["func_vals"] = np.abs(kw["func_vals"])
                 tf = InverseRTransform(btf)
                 def call(func_vals, pts, ode_params, r_atnums, r_atcoords, alphas_basis=None, **g):
                     grid = (AtomGrid(g["rgrid"], degrees=g["degrees"], center=g["center"]) if target == "atomgrid"
                             else MolGrid(g["atnums"], g["atgrids"], BeckeWeights(), store=True))
                     pot = solve_poisson_robust(grid, func_vals, tf, r_atnums, r_atcoords, split2=split2,
-                                               alphas_basis=alphas_basis, ode_params=ode_params)
+                                               alphas_basis=alphas_basis, ode_params=ode_params,
+                                               include_origin=(target == "atomgrid"))
                     return pot(pts)
                 return call, kw
 
 
+
+# ---- coulomb, utils -------------------------------------------------------------
 def _entries_coulomb_utils():
-    pass
+    import grid.coulomb as cmod
+    import grid.utils as umod
+    from grid.basegrid import Grid
+
+    for fname in ("coulomb_gaussian_s", "coulomb_gaussian_p", "coulomb_gaussian_s_unnormalized",
+                  "coulomb_gaussian_p_unnormalized"):
+        if not hasattr(cmod, fname):
+            continue
+        for norm in (True, False):
+            for form in ("array", "with-zero", "2d"):
+                @entry(f"coulomb.{fname}", f"{form}-norm{norm}")
+                def _(rng, lv, fname=fname, norm=norm, form=form):
+                    n = 6 + 10 * lv
+                    r = rng.uniform(0.0, 3.0, n)
+                    if form == "with-zero":
+                        r[::3] = 0.0
+                    if form == "2d":
+                        r = r.reshape(2, -1)
+                    alpha = float(rng.uniform(0.3, 3.0))
+                    fn = getattr(cmod, fname)
+                    if "normalized" in inspect.signature(fn).parameters:
+                        return (lambda r: fn(r, alpha, normalized=norm)), dict(r=r)
+                    return (lambda r: fn(r, alpha)), dict(r=r)
+
+    for form in ("s", "s+p", "lists"):
+        for norm in (True, False):
+            @entry("coulomb.coulomb_potential", f"{form}-norm{norm}")
+            def _(rng, lv, form=form, norm=norm):
+                k = 3 + lv
+                kw = dict(points=_pts(rng, 6 + 6 * lv, scale=2.0), centers_s=_pts(rng, k), coeffs_s=rng.uniform(0.1, 1, k),
+                          alphas_s=rng.uniform(0.3, 3, k))
+                if form == "s+p":
+                    kw.update(centers_p=_pts(rng, k), coeffs_p=rng.uniform(0.1, 1, k), alphas_p=rng.uniform(0.3, 3, k))
+                if form == "lists":
+                    kw = {a: v.tolist() for a, v in kw.items()}
+                return (lambda **a: cmod.coulomb_potential(normalized=norm, **a)), kw
+
+    @entry("coulomb.load_atomic_gaussian_params")
+    def _(rng, lv):
+        # the arrays handed out become the caller's: a second load must not touch them, and
+        # using them as arguments must leave them intact
+        first = cmod.load_atomic_gaussian_params(int(rng.choice([1, 6, 8])))
+        def call(first, element, points):
+            c, a = cmod.load_atomic_gaussian_params(element)
+            c2, a2 = cmod.load_atomic_gaussian_params("H")
+            return cmod.coulomb_potential(points, np.zeros((len(c), 3)), c, a)
+        return call, dict(first=list(first), element=int(rng.choice([1, 6, 7, 8, 17])), points=_pts(rng, 4))
+
+    def angles(rng, lv):
+        n = 5 + 8 * lv
+        return dict(theta=rng.uniform(-np.pi, np.pi, n), phi=rng.uniform(0.05, np.pi - 0.05, n))
+
+    for fname in ("generate_real_spherical_harmonics", "generate_real_spherical_harmonics_scipy",
+                  "generate_derivative_real_spherical_harmonics"):
+        for l_max in (0, 1, 3):
+            @entry(f"utils.{fname}", f"lmax{l_max}")
+            def _(rng, lv, fname=fname, l_max=l_max):
+                fn = getattr(umod, fname)
+                return (lambda theta, phi: fn(l_max + lv, theta, phi)), angles(rng, lv)
+
+    @entry("utils.generate_real_spherical_harmonics", "poles")
+    def _(rng, lv):
+        return (lambda theta, phi: umod.generate_real_spherical_harmonics(2, theta, phi)), dict(
+            theta=np.array([0.0, 1.0, -2.0, 0.0]), phi=np.array([0.0, np.pi, 0.0, np.pi / 2]))
+
+    @entry("utils.generate_derivative_real_spherical_harmonics", "poles")
+    def _(rng, lv):
+        return (lambda theta, phi: umod.generate_derivative_real_spherical_harmonics(2, theta, phi)), dict(
+            theta=np.array([0.0, 1.0, -2.0, 0.0]), phi=np.array([0.0, np.pi, 0.0, np.pi / 2]))
+
+    for l_max in (0, 2, 4):
+        @entry("utils.solid_harmonics", f"lmax{l_max}")
+        def _(rng, lv, l_max=l_max):
+            n = 5 + 8 * lv
+            sph = np.column_stack([rng.uniform(0, 2, n), rng.uniform(-np.pi, np.pi, n), rng.uniform(0, np.pi, n)])
+            return (lambda sph_pts: umod.solid_harmonics(l_max, sph_pts)), dict(sph_pts=sph)
+
+    for form in ("no-center", "center-array", "center-list", "with-origin"):
+        @entry("utils.convert_cart_to_sph", form)
+        def _(rng, lv, form=form):
+            kw = dict(points=_pts(rng, 6 + 8 * lv))
+            if form == "center-array":
+                kw["center"] = rng.normal(size=3)
+            if form == "center-list":
+                kw["center"] = [0.1, -0.2, 0.3]
+            if form == "with-origin":
+                kw["points"][0] = 0.0
+                kw["points"][1] = [0.0, 0.0, 1.0]
+            return (lambda **a: umod.convert_cart_to_sph(**a)), kw
+
+    for form in ("floats", "0d-arrays", "origin", "pole"):
+        @entry("utils.convert_derivative_from_spherical_to_cartesian", form)
+        def _(rng, lv, form=form):
+            d = rng.normal(size=3)
+            r, t, p = float(rng.uniform(0.2, 2)), float(rng.uniform(-3, 3)), float(rng.uniform(0.1, 3))
+            if form == "origin":
+                r = 0.0
+            if form == "pole":
+                p = 0.0
+            vals = [d[0], d[1], d[2], r, t, p]
+            if form != "floats":
+                vals = [np.array(float(v)) for v in vals]
+            names = ["deriv_r", "deriv_theta", "deriv_phi", "r", "theta", "phi"]
+            return (lambda **a: umod.convert_derivative_from_spherical_to_cartesian(**a)), dict(zip(names, vals))
+
+    for cov in ("bragg", "cambridge", "alvarez"):
+        for form in ("array", "list", "int"):
+            @entry("utils.get_cov_radii", f"{cov}-{form}")
+            def _(rng, lv, cov=cov, form=form):
+                at = rng.integers(1, 30, size=3 + lv)
+                at = {"array": at, "list": [int(a) for a in at], "int": int(at[0])}[form]
+                return (lambda atnums: umod.get_cov_radii(atnums, cov)), dict(atnums=at)
+
+    @entry("utils.get_cov_radii", "result-is-callers")
+    def _(rng, lv):
+        # a radii array handed out earlier is the caller's; later look-ups must not alter it
+        first = umod.get_cov_radii(np.array([1, 6, 8]))
+        return (lambda first, atnums: umod.get_cov_radii(atnums) + first), dict(first=first, atnums=np.array([1, 6, 8]))
+
+    @entry("utils.dipole_moment_of_molecule")
+    def _(rng, lv):
+        n = 10 + 10 * lv
+        kw = dict(points=_pts(rng, n, scale=2.0), weights=_w(rng, n), density=rng.uniform(0, 1, n),
+                  coords=rng.normal(size=(2, 3)), charges=np.array([1, 8]))
+        def call(points, weights, density, coords, charges):
+            return umod.dipole_moment_of_molecule(Grid(points, weights), density, coords, charges)
+        return call, kw
+
+    for type_ord in ("cartesian", "radial", "pure", "pure-radial"):
+        for dim in (1, 2, 3):
+            @entry("utils.generate_orders_horton_order", f"{type_ord}-{dim}d")
+            def _(rng, lv, type_ord=type_ord, dim=dim):
+                order = int(rng.integers(1, 4))
+                return (lambda: umod.generate_orders_horton_order(order, type_ord, dim)), {}
 
 
+# ---- rtransform, onedgrid -------------------------------------------------------
 def _entries_rtransform_onedgrid():
-    pass
+    import grid.onedgrid as omod
+    import grid.rtransform as rt
+    from grid.basegrid import OneDGrid
+
+    def mk(cls_name, rng, n):
+        """-> (transform, x in the domain (caller array))."""
+        if cls_name == "BeckeRTransform":
+            return rt.BeckeRTransform(0.01, float(rng.uniform(0.8, 2.0))), "finite"
+        if cls_name == "LinearFiniteRTransform":
+            return rt.LinearFiniteRTransform(0.1, float(rng.uniform(2.0, 5.0))), "finite"
+        if cls_name == "InverseRTransform":
+            return rt.InverseRTransform(rt.BeckeRTransform(0.01, 1.3)), "positive"
+        if cls_name == "IdentityRTransform":
+            return rt.IdentityRTransform(), "positive"
+        if cls_name == "LinearInfiniteRTransform":
+            return rt.LinearInfiniteRTransform(0.1, 8.0, b=float(n)), "index"
+        if cls_name == "ExpRTransform":
+            return rt.ExpRTransform(0.1, 8.0, b=float(n)), "index"
+        if cls_name == "PowerRTransform":
+            return rt.PowerRTransform(0.1, 8.0, b=float(n)), "index"
+        if cls_name == "HyperbolicRTransform":
+            return rt.HyperbolicRTransform(0.4 / n, 1.0 / (n + 2)), "index"
+        if cls_name == "MultiExpRTransform":
+            return rt.MultiExpRTransform(0.01, 1.2), "finite"
+        if cls_name == "KnowlesRTransform":
+            return rt.KnowlesRTransform(0.01, 1.2, int(rng.integers(1, 4))), "finite"
+        if cls_name == "HandyRTransform":
+            return rt.HandyRTransform(0.01, 1.2, int(rng.integers(1, 4))), "finite"
+        if cls_name == "HandyModRTransform":
+            return rt.HandyModRTransform(0.01, 10.0, int(rng.integers(1, 4))), "finite"
+        raise KeyError(cls_name)
+
+    def xs(kind, rng, n):
+        if kind == "finite":
+            return np.sort(rng.uniform(-0.95, 0.95, n))
+        if kind == "positive":
+            return np.sort(rng.uniform(0.05, 4.0, n))
+        return np.arange(n, dtype=float) + rng.uniform(0.0, 0.5, n)
+
+    classes = [n for n, o in vars(rt).items()
+               if inspect.isclass(o) and issubclass(o, rt.BaseTransform) and o is not rt.BaseTransform
+               and o.__module__ == rt.__name__]
+    fwd = ["transform", "deriv", "deriv2", "deriv3"]
+    inv = ["inverse", "deriv_inverse", "deriv2_inverse", "deriv3_inverse"]
+    for cname in classes:
+        klass = getattr(rt, cname)
+        try:
+            mk(cname, np.random.default_rng(0), 5)
+        except KeyError:
+            continue  # a transform class this registry does not know: reported as not covered
+
+        @entry(f"rtransform.{cname}.__init__")
+        def _(rng, lv, cname=cname):
+            return (lambda: mk(cname, rng, 6)[0]), {}
+
+        for meth in fwd + inv:
+            owner = next(k for k in klass.__mro__ if meth in vars(k))
+            qual = f"rtransform.{owner.__name__}.{meth}"
+            for form in ("array", "view", "2d"):
+                @entry(qual, f"{cname}-{form}" if owner is not klass else form)
+                def _(rng, lv, cname=cname, meth=meth, form=form):
+                    n = 6 + 10 * lv
+                    tf, kind = mk(cname, rng, n)
+                    x = xs(kind, rng, n)
+                    if meth in inv:
+                        with np.errstate(all="ignore"):
+                            x = np.array(tf.transform(x.copy()))
+                    if form == "view":
+                        buf = np.repeat(x, 2)
+                        x = buf[::2]
+                    elif form == "2d":
+                        x = x.reshape(2, -1)
+                    return (lambda x: getattr(tf, meth)(x)), dict(x=x)
+
+        @entry("rtransform.BaseTransform.transform_1d_grid", cname)
+        def _(rng, lv, cname=cname):
+            n = 6 + 10 * lv
+            tf, kind = mk(cname, rng, n)
+            pts = xs(kind, rng, n)
+            dom = {"finite": (-1.0, 1.0), "positive": (0.02, np.inf), "index": (0.0, float(n))}[kind]
+            def call(oned_grid):
+                g = tf.transform_1d_grid(oned_grid)
+                return g.points, g.weights, g.domain
+            return call, dict(oned_grid=OneDGrid(pts, _w(rng, n), dom))
+
+        if "set_maximum_parameter_b" in vars(klass):
+            @entry(f"rtransform.{cname}.set_maximum_parameter_b")
+            def _(rng, lv, cname=cname):
+                n = 6 + 10 * lv
+                klass = getattr(rt, cname)
+                def call(x):
+                    tf = klass(0.1, 8.0)
+                    tf.set_maximum_parameter_b(x)
+                    return tf.transform(x), tf.b
+                return call, dict(x=np.arange(n, dtype=float))
+
+            @entry("rtransform.BaseTransform.transform_1d_grid", f"{cname}-b-from-grid")
+            def _(rng, lv, cname=cname):
+                n = 6 + 10 * lv
+                klass = getattr(rt, cname)
+                def call(oned_grid):
+                    g = klass(0.1, 8.0).transform_1d_grid(oned_grid)
+                    return g.points
+                return call, dict(oned_grid=OneDGrid(np.arange(n, dtype=float), np.ones(n), (0.0, float(n - 1))))
+
+    for form in ("array", "even", "list"):
+        @entry("rtransform.BeckeRTransform.find_parameter", form)
+        def _(rng, lv, form=form):
+            n = 7 if form != "even" else 8
+            a = np.sort(rng.uniform(-0.9, 0.9, n))
+            if form == "list":
+                return (lambda array: rt.BeckeRTransform.find_parameter(np.asarray(array), 0.01, 1.5)), dict(array=a.tolist())
+            return (lambda array: rt.BeckeRTransform.find_parameter(array, 0.01, 1.5)), dict(array=a)
+
+    @entry("rtransform.InverseRTransform.__init__", "roundtrip")
+    def _(rng, lv):
+        n = 6 + 10 * lv
+        def call(x):
+            tf = rt.BeckeRTransform(0.01, 1.3)
+            itf = rt.InverseRTransform(tf)
+            r = tf.transform(x)
+            return itf.transform(r), itf.inverse(x), itf.deriv(r), itf.deriv2(r), itf.deriv3(r)
+        return call, dict(x=np.sort(rng.uniform(-0.9, 0.9, n)))
+
+    # onedgrid: every constructor takes integers / floats / a class only (no caller-owned mutable
+    # argument): exercised once, counted as trivial
+    for cname, klass in vars(omod).items():
+        if not (inspect.isclass(klass) and issubclass(klass, OneDGrid) and klass.__module__ == omod.__name__):
+            continue
+        params = list(inspect.signature(klass.__init__).parameters)[1:]
+
+        @entry(f"onedgrid.{cname}.__init__")
+        def _(rng, lv, klass=klass, params=params):
+            n = 5 + 2 * int(rng.integers(0, 3)) + 10 * lv
+            kw = {}
+            if "quadrature" in params:
+                kw["quadrature"] = omod.GaussChebyshev
+            def call():
+                g = klass(n, **kw)
+                return g.points, g.weights
+            return call, {}
